@@ -191,6 +191,86 @@ def _shape_check_ok(cls, e_):
     return bool(raises) and all(any(t.kind == "test" and any(isinstance(y, ast.Compare) for y in ast.walk(t.ast.test)) for t, _ in hc.guards_of(n)) for n in raises)
 
 
+def _whole_shape_rule(index, ctx, T):
+    """Gradients / Jacobians pin the value's shape to the key's shape (all of it / all but the first axis). Scalar summaries of a shape — its
+    length, its number of elements, one of its entries — cannot do that for keys with two or more axes ((2, 3) and (3, 2) agree on all
+    of them). Positive witness only: violated when every comparison of the class's checks is between such scalars; ok when a
+    comparison between shapes as wholes is found; undecided otherwise."""
+    for cname in ("Gradients", "Jacobians"):
+        cls = index.find_class(f"{T}.tensor_dict.{cname}")
+        if cls is None:
+            raise AnalysisError(f"anchor vanished: {cname}")
+        mod = cls.module
+        roots = [f.node for f in cls.methods.values()] + [e for e in cls.class_attrs.values() if isinstance(e, ast.AST)]
+        seen, todo = {}, [n.id for r in roots for n in ast.walk(r) if isinstance(n, ast.Name) and n.id in mod.functions]
+        while todo:
+            nm = todo.pop()
+            if nm in seen:
+                continue
+            seen[nm] = mod.functions[nm]
+            todo += [n.id for n in ast.walk(mod.functions[nm].node) if isinstance(n, ast.Name) and n.id in mod.functions]
+        bodies = [f.node for f in cls.methods.values()] + [f.node for f in seen.values()]
+
+        def kind(e, defs, depth=0):
+            """'shape' (a whole shape or a slice of one), 'scalar' (a number summarising a shape), None (something else)"""
+            if depth > 4:
+                return None
+            if isinstance(e, ast.Attribute):
+                if e.attr == "shape":
+                    return "shape"
+                if e.attr == "ndim":
+                    return "scalar"
+            if isinstance(e, ast.Call):
+                f_ = e.func
+                if isinstance(f_, ast.Attribute) and f_.attr == "size" and not e.args:
+                    return "shape"
+                if isinstance(f_, ast.Attribute) and f_.attr in ("dim", "numel", "nelement", "ndimension") or (isinstance(f_, ast.Attribute) and f_.attr == "size" and e.args):
+                    return "scalar"
+                if isinstance(f_, ast.Name) and f_.id == "len":
+                    return "scalar"
+                if isinstance(f_, ast.Name) and f_.id in ("tuple", "list") and e.args or norm_text(f_) in ("torch.Size", "Size") and e.args:
+                    return kind(e.args[0], defs, depth + 1)
+                if norm_text(f_) in ("math.prod", "prod") and e.args and kind(e.args[0], defs, depth + 1) == "shape":
+                    return "scalar"
+            if isinstance(e, ast.Subscript):
+                k_ = kind(e.value, defs, depth + 1)
+                if k_ == "shape":
+                    return "shape" if isinstance(e.slice, ast.Slice) else "scalar"
+            if isinstance(e, ast.BinOp) and isinstance(e.op, ast.Add) and "shape" in (kind(e.left, defs, depth + 1), kind(e.right, defs, depth + 1)):
+                return "shape"
+            if isinstance(e, ast.BinOp) and {kind(e.left, defs, depth + 1), kind(e.right, defs, depth + 1)} <= {"scalar", None} and "scalar" in (kind(e.left, defs, depth + 1), kind(e.right, defs, depth + 1)):
+                return "scalar"
+            if isinstance(e, ast.Constant) and isinstance(e.value, int):
+                return "scalar"
+            if isinstance(e, ast.Name) and len(defs.get(e.id, ())) == 1:
+                return kind(defs[e.id][0], defs, depth + 1)
+            if isinstance(e, ast.Name):
+                return "scalar" if e.id in defs.get("__int_params__", ()) else None
+            return None
+
+        whole, scalars, other = [], [], []
+        for b in bodies:
+            defs = {}
+            for a_ in ast.walk(b):
+                if isinstance(a_, ast.Assign) and len(a_.targets) == 1 and isinstance(a_.targets[0], ast.Name):
+                    defs.setdefault(a_.targets[0].id, []).append(a_.value)
+            if isinstance(b, ast.FunctionDef):
+                defs["__int_params__"] = [a_.arg for a_ in b.args.args + b.args.kwonlyargs if a_.annotation is not None and norm_text(a_.annotation) == "int"]
+            for c_ in ast.walk(b):
+                if isinstance(c_, ast.Compare) and len(c_.ops) == 1 and isinstance(c_.ops[0], (ast.Eq, ast.NotEq, ast.Lt, ast.Gt, ast.LtE, ast.GtE)):
+                    ks = (kind(c_.left, defs), kind(c_.comparators[0], defs))
+                    (whole if ks == ("shape", "shape") else scalars if set(ks) <= {"scalar"} else other).append(c_)
+        key_ = f"{cname}: the value's shape is compared with the key's shape as a whole"
+        if whole:
+            ctx.ok("R6", key_, f"`{norm_text(whole[0])[:70]}`", cls.loc())
+        elif scalars and not other:
+            ctx.violated("R6", key_, f"every comparison made by the checks of {cname} is between numbers summarising a shape ({', '.join('`' + norm_text(x)[:40] + '`' for x in scalars[:3])}): the number of "
+                         "axes and the number of elements do not determine a shape — a value of shape (3, 2) passes for a key of shape (2, 3) — so a dictionary whose values contradict its type can be created", cls.loc())
+        else:
+            ctx.undecided("R6", key_, f"no comparison between shapes found among the checks of {cname}, and some comparisons are of a form that is not recognised "
+                          f"({', '.join('`' + norm_text(x)[:40] + '`' for x in other[:3])})", cls.loc())
+
+
 def _table_driven_checks(index, ctx, td, ini_f, c, sup, T) -> bool:
     """R6 when the checks of the typed dictionaries are declared as TABLES: class attributes holding tuples of check functions, which
     TensorDict.__init__ walks (the dictionary-level ones on the mapping, the per-pair ones on every item) before storing. Returns False
@@ -670,6 +750,7 @@ def check(index, ctx):
         PAIR, DICT = PAIR[0], DICT[0]
     if PAIR is not None:
         _hook_driven_checks(index, ctx, td, ini, c, sup, T, PAIR, DICT, overridden, covering)
+    _whole_shape_rule(index, ctx, T)
     emp = index.find_class(f"{T}.tensor_dict.EmptyTensorDict")
     if emp is not None and "__init__" in emp.methods:
         f = emp.methods["__init__"]
